@@ -28,8 +28,15 @@
    assignment, IfTrue / IfFalse / IfElse, Composite, While and Repeat (with or without the loop variable), nested
    at will, where locals are declared in main, in Repeat bodies (popped at the end of every round) and inside
    Composite cards in such positions (the while-language with for-loops and block-local variables); the resource
-   side is explicit (hypotheses on stack depth and budget).  STILL OPEN - carried by the differential check
-   C01Check (the real compiler + VM against eval_program) only: reals, ForEach, calls, tables, closures, natives. *)
+   side is explicit (hypotheses on stack depth and budget).
+   STATIC CALLS (fragment F9, end of this file: several functions, Call with parameters to functions declared later - no
+   recursion -, Return) are covered IN PART: the reference half (C01_f9_reference_meaning), the compiler half (code:
+   C01_f9_compile_shape_code, labels: C01_f9_compile_labels) and C01_f9_well_scoped are proved for all programs of the fragment; the VM half (the run of
+   that code on Vm.run) has its vocabulary and the call / return steps proved (Cao.C01SimVm9, Cao.C01SimF9) but not the
+   simulation, so there is NO C01_compile_correct_f9 yet.
+   STILL OPEN - carried by the differential check
+   C01Check (the real compiler + VM against eval_program) only: reals, ForEach, calls (end to end; recursion, dynamic
+   calls), tables, closures, natives. *)
 From Coq Require Import List NArith ZArith Bool Arith String Ascii.
 Import ListNotations.
 From Cao Require Import CardAst RefSem RefScope RefSemProofs.
@@ -988,3 +995,139 @@ Theorem C01_fragments_well_scoped :
     (C01SimDefs8.in_f8 M = true -> well_scoped M = true).
 Proof. exact C01SimScope8.fragments_well_scoped8. Qed.
 Print Assumptions C01_fragments_well_scoped.
+
+(* ==== fragment F9: several functions, static calls with parameters, Return (PARTIAL: no end-to-end theorem yet) ====
+   (C01SimDefs9.in_f9.)  A module  main :: f1 :: ... :: fk  without submodules and imports, main first and without
+   parameters, the function names pairwise distinct, the parameters of a function pairwise distinct.  Pure expressions e
+   are those of F1 over parameters, locals and globals; a right-hand side r is  e  or  Call f [e1; ...; en]  where f is
+   declared LATER in the module than the running function (the call graph is acyclic: no recursion) and n is the number
+   of parameters of f; statements are  SetGlobalVar g r | SetVar x r | Return r (not in main) | IfTrue e s | IfFalse e s |
+   IfElse e s s;  a SetVar of a new name directly in a function body declares a local.  Arguments are evaluated left to
+   right and the FIRST argument is bound to the LAST declared parameter; a body that ends without Return yields nil.
+   What is proved for all programs of the fragment (parts of compile_correct for it; the theorems follow the instance):
+     - C01_f9_compile_shape_code: the compiler half, the code - compile M = COk B implies that the bytecode of B begins
+       with the encoding of C01SimDefs9.code_all9 (main, then f1 .. fk; a call = the arguments, FunctionPointer (handle of
+       the callee's position, its arity), CallFunction; a function body ends with one Pop per local - parameters included -,
+       ScalarNil, Return; a Return card = the value, Return), with the facts about the table of global ids the earlier
+       fragments use;
+     - C01_f9_compile_labels: the compiler half, the labels - the label of function i is the address of its first
+       instruction in code_all9 (labels_ok9 on bases_all9), given that the label keys of the program are pairwise distinct;
+     - C01_f9_reference_meaning: the reference half - eval_program fuel M host = PObs o implies that o is what the direct,
+       fuel-free meaning C01SimDefs9.run_main9 computes (sem9: the meaning of the calls to the later functions, by recursion
+       on the list of functions): outcome kind Ok or VarNotFound, the globals;
+     - C01_f9_well_scoped: the fragment lies inside RefScope.well_scoped (function names without '.').
+   Proved on the VM side (Cao.C01SimVm9, Cao.C01SimF9.expr_f1_sim9: a pure expression in a frame at any offset; not property theorems): the vocabulary of the simulation with call frames and heap
+   as part of the configuration (steps9, loop_steps9), ReadLocalVar / SetLocalVar relative to a frame offset, and the call
+   protocol - FunctionPointer; CallFunction enters labels[h] in a frame whose offset is the position of the first argument
+   (ex9_call), Return replaces the callee's part of the stack, arguments included, by the returned value and continues
+   behind the call (ex9_return).
+   STILL OPEN for F9: the simulation of code_all9 on the VM by induction over run_main9 (expressions, statements, bodies,
+   functions from the last to the first) and with it C01_compile_correct_f9; recursion; calls in statement position (their
+   value stays on the stack as junk); While / Repeat inside functions.  The instance below runs all three sides. *)
+From Cao Require C01SimDefs9 CompilerLabels.
+
+(* an instance: sub2(a, b) is called with (10, x = 7): the first argument is bound to the LAST parameter b, so d = a - b = -3;
+   sub2 calls clamp, which returns early for a negative argument; noret ends without Return and yields nil *)
+Definition f9_example : module :=
+  prog [("main", fn [] [CSetVar (s "x") (CScalarInt 7);
+                        CSetGlobalVar (s "r") (CCall (s "sub2") [CScalarInt 10; CReadVar (s "x")]);
+                        CSetVar (s "y") (CCall (s "clamp") [CReadVar (s "r")]);
+                        CSetGlobalVar (s "q") (CBin BAdd (CReadVar (s "y")) (CReadVar (s "x")));
+                        CSetGlobalVar (s "z") (CCall (s "clamp") [CScalarInt 5]);
+                        CSetGlobalVar (s "w") (CCall (s "noret") [])]);
+        ("sub2", fn ["a"; "b"] [CSetVar (s "d") (CBin BSub (CReadVar (s "a")) (CReadVar (s "b")));
+                                CSetGlobalVar (s "seen") (CCall (s "clamp") [CReadVar (s "d")]);
+                                CUn UReturn (CReadVar (s "d"))]);
+        ("clamp", fn ["v"] [CBin BIfTrue (CBin BLess (CReadVar (s "v")) (CScalarInt 0)) (CUn UReturn (CScalarInt 0));
+                            CSetGlobalVar (s "clamped") (CReadVar (s "v"));
+                            CUn UReturn (CReadVar (s "v"))]);
+        ("noret", fn [] [CSetGlobalVar (s "n") (CScalarInt 1)])].
+Example C01_f9_instance :
+  match Compiler.compile f9_example CompilerProofs.default_options, eval_program 500 f9_example [] with
+  | Compiler.COk B, PObs o =>
+      C01SimDefs9.in_f9 f9_example = true /\ C01SimDefs9.depth_ok9 f9_example = true /\
+      CompilerLabels.label_keys_distinct_module f9_example 64 = true /\
+      (N.of_nat (List.length (Compiler.p_ids B)) <? Bits.two32)%N = true /\
+      (* the compiler half: the code and the labels *)
+      (let code := Bytecode.encode (C01SimDefs9.code_all9 (Compiler.p_ids B) f9_example) in
+       firstn (List.length code) (Compiler.p_bytecode B) = code) /\
+      C01SimDefs9.bases_all9 (Compiler.p_ids B) f9_example = [121; 168; 217]%N /\
+      map (fun i => Compiler.nm_find (Bits.handle_from_u64 i) (Compiler.p_labels B)) [1; 2; 3]%N
+        = [Some 121; Some 168; Some 217]%N /\
+      (* the reference half: the direct meaning *)
+      C01SimDefs9.run_main9 f9_example =
+        (true, [(s "seen", RefSem.VInt 0); (s "r", RefSem.VInt (-3)); (s "q", RefSem.VInt 7); (s "clamped", RefSem.VInt 5);
+                (s "z", RefSem.VInt 5); (s "n", RefSem.VInt 1); (s "w", RefSem.VNil)]) /\
+      (ob_kind o, ob_globals o) =
+        (KOk, [(s "seen", TrInt 0); (s "r", TrInt (-3)); (s "q", TrInt 7); (s "clamped", TrInt 5); (s "z", TrInt 5);
+               (s "n", TrInt 1); (s "w", TrNil)]) /\
+      (* the VM on the compiled program *)
+      let r := Vm.run no_floats Vm.Debug 500 (C15Link.to_vm B) Vm.fresh_state in
+      C01SimDefs.vm_kind (fst r) = Some (ob_kind o) /\
+      Stacks.vcount (Vm.st_stack (snd r)) = 0 /\
+      map (fun n => option_map C01SimDefs.vm_tree (Vm.read_var_by_name (C15Link.to_vm B) (snd r) n))
+          [s "r"; s "q"; s "z"; s "w"; s "seen"; s "clamped"; s "n"; s "x"; s "d"]
+      = map (fun n => assoc n (ob_globals o)) [s "r"; s "q"; s "z"; s "w"; s "seen"; s "clamped"; s "n"; s "x"; s "d"]
+  | _, _ => False
+  end.
+Proof. vm_compute. repeat split; reflexivity. Qed.
+
+(* the fragment F9 lies inside the class property C01 quantifies over.  The extra hypothesis - no function name contains
+   a '.' - is needed: in_f9 does not forbid a user function called "std.to_array", and well_scoped rejects a program in
+   which two functions (the injected library included) have the same full name.  (The compiler refuses such names:
+   Compiler.is_name_valid.) *)
+From Cao Require C01SimScope9.
+Theorem C01_f9_well_scoped :
+  forall M : module,
+    forallb (fun nf => negb (existsb (N.eqb 46) (fst nf))) (m_functions M) = true ->
+    C01SimDefs9.in_f9 M = true -> well_scoped M = true.
+Proof. exact C01SimScope9.f9_well_scoped. Qed.
+Print Assumptions C01_f9_well_scoped.
+Example C01_f9_instance_well_scoped :
+  forallb (fun nf => negb (existsb (N.eqb 46) (fst nf))) (m_functions f9_example) = true /\
+  C01SimDefs9.in_f9 f9_example = true /\ well_scoped f9_example = true.
+Proof. vm_compute. repeat split; reflexivity. Qed.
+
+(* the reference half for F9: an observation of the reference semantics is what the direct, fuel-free meaning
+   C01SimDefs9.run_main9 (runs9 over main's cards with sem9 for the calls) computes - the run ends normally or with
+   VarNotFound, and the globals are those of the direct meaning *)
+From Cao Require C01SimRef5 C01SimRef9.
+Theorem C01_f9_reference_meaning :
+  forall (fuel : nat) (M : module) (host : list str) (o : obs),
+    C01SimDefs9.in_f9 M = true -> eval_program fuel M host = PObs o ->
+    exists g, C01SimDefs9.run_main9 M = (match ob_kind o with KOk => true | _ => false end, g) /\
+              (ob_kind o = KOk \/ ob_kind o = KErr EVarNotFound) /\
+              C01SimRef5.simples g /\
+              ob_globals o = map (fun nv => (fst nv, C01SimDefs.vm_tree (C01SimDefs.to_vm (snd nv)))) g.
+Proof. exact C01SimRef9.eval_program_f9. Qed.
+Print Assumptions C01_f9_reference_meaning.
+
+(* the compiler half for F9, the code: the bytecode of a compiled program of the fragment begins with the encoding of
+   C01SimDefs9.code_all9 (main, then the other functions in order), every global name of the program has an id, the id
+   table is injective and below 2^32, and no two global names of the program share their handle.  (The labels: C01_f9_compile_labels below.) *)
+From Cao Require C01SimComp9.
+Theorem C01_f9_compile_shape_code :
+  forall (M : module) (B : Compiler.compiled),
+    C01SimDefs9.in_f9 M = true -> Compiler.compile M CompilerProofs.default_options = Compiler.COk B ->
+    (N.of_nat (List.length (Compiler.p_ids B)) < Bits.two32)%N ->
+    exists rest,
+      Compiler.p_bytecode B = Bytecode.encode (C01SimDefs9.code_all9 (Compiler.p_ids B) M ++ rest) /\
+      (forall n, In n (C01SimDefs9.gnames9 M) -> Compiler.nm_find (Bits.handle_of_bytes n) (Compiler.p_ids B) <> None) /\
+      (forall h1 h2 id, Compiler.nm_find h1 (Compiler.p_ids B) = Some id -> Compiler.nm_find h2 (Compiler.p_ids B) = Some id -> h1 = h2) /\
+      (forall h id, Compiler.nm_find h (Compiler.p_ids B) = Some id -> (id < Bits.two32)%N) /\
+      C01SimDefs.handles_inj (C01SimDefs9.gnames9 M) = true.
+Proof. exact C01SimComp9.compile_f9_shape_code. Qed.
+Print Assumptions C01_f9_compile_shape_code.
+
+(* the compiler half for F9, the labels: the label of function number i of the module (i >= 1; main is number 0 and has
+   no label) is the address at which its code starts in code_all9.  Hypothesis: the label keys of the program are pairwise
+   distinct (CompilerLabels.label_keys_distinct_module, decidable: function handles are 32-bit hashes of the position, and
+   the labels of the functions of the injected library live in the same table). *)
+Theorem C01_f9_compile_labels :
+  forall (M : module) (B : Compiler.compiled),
+    C01SimDefs9.in_f9 M = true -> Compiler.compile M CompilerProofs.default_options = Compiler.COk B ->
+    (N.of_nat (List.length (Compiler.p_ids B)) < Bits.two32)%N ->
+    CompilerLabels.label_keys_distinct_module M 64 = true ->
+    C01SimDefs9.labels_ok9 (Compiler.p_labels B) 1 (C01SimDefs9.bases_all9 (Compiler.p_ids B) M).
+Proof. exact C01SimComp9.compile_f9_labels. Qed.
+Print Assumptions C01_f9_compile_labels.
